@@ -321,6 +321,8 @@ pub struct Planted {
     pub maxdev: usize, // 0, 1 or 2 data deviations
     pub xids: Vec<u64>,
     pub label: String,
+    /// give the first row of every nonnegative(-like) cone an infinite right-hand side (1e30)
+    pub inf_rows: bool,
     ndev: usize,
 }
 
@@ -348,8 +350,14 @@ impl Planted {
             maxdev,
             xids,
             label: label.to_string(),
+            inf_rows: false,
             ndev,
         }
+    }
+    pub fn with_inf_rows(mut self) -> Self {
+        self.inf_rows = true;
+        self.label = format!("{}-infrows", self.label);
+        self
     }
     fn dev_slots(&self) -> u64 {
         // slot 0 = none; 1..=ndev single; then ordered pairs (i<j)
@@ -395,6 +403,15 @@ impl Planted {
         }
         for dv in &chosen {
             apply_dev(&mut p, dv);
+        }
+        if self.inf_rows {
+            let mut off = 0;
+            for c in &p.cones.clone() {
+                if matches!(c, ConeSpec::NN(k) if *k > 0) || matches!(c, ConeSpec::SOC(1) | ConeSpec::PSD(1)) {
+                    p.b[off] = 1e30;
+                }
+                off += c.numel();
+            }
         }
         (p, ss, chosen)
     }
@@ -522,7 +539,11 @@ pub fn sweep_spaces(judge: Judge, tier: &str) -> Vec<Box<dyn Space>> {
             v.push(Box::new(Planted::new(l.clone(), *n, s0.clone(), judge, 2, xids, "default")));
         } else {
             v.push(Box::new(Planted::new(l.clone(), *n, s0.clone(), judge, 1, xids.clone(), "default")));
-            v.push(Box::new(Planted::new(l.clone(), *n, s1.clone(), judge, 0, xids, "S<=1")));
+            v.push(Box::new(Planted::new(l.clone(), *n, s1.clone(), judge, 0, xids.clone(), "S<=1")));
+        }
+        if l.iter().any(|c| matches!(c, NN(k) if *k > 0) || matches!(c, SOC(1) | PSD(1))) {
+            let dev = if thorough { 1 } else { 0 };
+            v.push(Box::new(Planted::new(l.clone(), *n, s1.clone(), judge, dev, if thorough { xt.iter().cloned().filter(|x| *x < 3u64.pow(*n as u32)).collect() } else { xq.iter().cloned().filter(|x| *x < 3u64.pow(*n as u32)).collect() }, "S<=1").with_inf_rows()));
         }
     }
     v
